@@ -91,7 +91,8 @@ CLAIMED = {
         "with exact block-vector comparison on the dyadic-exact stream. Additionally a bit-exact binary64 twin of the mean path (model/PavaFloat.v, Coq primitive floats) satisfies the block contract for EVERY float input "
         "(NaN, infinities, overflow included) and is compared bit for bit with the implementation.",
    note="Partial: 'inputs are never modified' is observed (byte comparison of the caller's arrays around every call), not proved; replication is proved for the values only. Equalities of values are Qeq. "
-        "All theorems are closed under the global context except replication (standard real-number axioms).",
+        "All theorems are closed under the global context except replication (standard real-number axioms) and the three monotonicity theorems of the binary64 twin "
+        "(C12_float_monotone*: the standard library's FloatAxioms.eqb_spec / ltb_spec / leb_spec; primitive float operations are kernel primitives).",
    technique="Coq proof (certificate invariant, lock-step simulation for equivariances, uniqueness for replication) + skeleton/leaf translation + vm_compute correspondence", ref="4 C12"),
  "C15": dict(
    text="Machine-checked proof (Coq, classical reals + Coquelicot) about ElementaryScore.score_per_obs translated from source on every run: >= 0 and 0 at y=z for every eta, observation and prediction; "
